@@ -838,9 +838,23 @@ func (x *Exec) typeAssert(e *ast.TypeAssertExpr, st *State) Val {
 	panic("unreachable")
 }
 
+// typeAssert2: v, ok := x.(I) for an interface type I. The dynamic type of x
+// is not modelled, so ok is an unconstrained boolean (both outcomes are
+// explored); on success v is the same opaque handle as x (interface methods
+// are functions of the handle, so x's methods and v's agree), otherwise the
+// nil interface. Assertions to concrete types stay outside the subset.
 func (x *Exec) typeAssert2(e *ast.TypeAssertExpr, st *State) []Val {
-	x.unsupported(e, "type assertions are not supported")
-	panic("unreachable")
+	tt := x.info().Types[e.Type].Type
+	if _, isIface := tt.Underlying().(*types.Interface); !isIface || e.Type == nil {
+		x.unsupported(e, "type assertions to concrete types are not supported")
+	}
+	v := x.expr(e.X, st)
+	ty := x.w.goTy(tt, x.model.BV)
+	if v.Ty.K != TOpaque || ty.K != TOpaque {
+		x.unsupported(e, "type assertion on a non-interface value")
+	}
+	ok := x.sym.Fresh("typeok", SBool)
+	return []Val{{T: Ite(ok, v.T, IntLit(0)), Ty: ty}, {T: ok, Ty: tyBool}}
 }
 
 // ---------------------------------------------------------------------
